@@ -183,7 +183,7 @@ def parse_json_ui(out):
     return res
 
 
-def run_unit(u, tier, keep=False, extra_defs=(), want_trace_for=None):
+def run_unit(u, tier, keep=False, extra_defs=(), want_trace_for=None, relax_cover=False):
     r = UnitResult(u)
     t0 = time.time()
     wd = tempfile.mkdtemp(prefix="vu_", dir=WORKROOT)
@@ -267,7 +267,7 @@ def run_unit(u, tier, keep=False, extra_defs=(), want_trace_for=None):
             if r.canary is not True and not u.get("no_canary"):
                 r.status, r.reason = "undecided", "vacuous: canary after the call is unreachable (canary=%s)" % r.canary
             unreached = [n for n, ok in r.cover if not ok]
-            if unreached:
+            if unreached and not relax_cover:     # (re-runs under assume(!class) of a known finding legitimately lose the cover points of that class)
                 r.status, r.reason = "undecided", "vacuous: cover points not reachable: " + ",".join(unreached)
             if len(r.obligations) < u.get("min_obligations", 1):
                 r.status, r.reason = "undecided", "vacuous: %d obligations generated, expected >= %d" % (
@@ -489,7 +489,7 @@ def _main(args, tier, seed, prop, t_start):
                 if not any(j[0] == uname and j[1] == k["exclude_define"] for j in kf_jobs):
                     kf_jobs.append((uname, k["exclude_define"]))
     with ThreadPoolExecutor(max_workers=args.j) as ex:
-        kf_res = list(ex.map(lambda j: run_unit(umap[j[0]], tier, extra_defs=list(args.define) + [j[1]]), kf_jobs))
+        kf_res = list(ex.map(lambda j: run_unit(umap[j[0]], tier, extra_defs=list(args.define) + [j[1]], relax_cover=True), kf_jobs))
     kf_map = {j: r for j, r in zip(kf_jobs, kf_res)}
     remaining_by_unit = {}
     for uname, obs in byunit.items():
